@@ -17,6 +17,7 @@ var c03Templates = []string{
 	"def u {\n f = K\n def c \"x\" {\n h = f\n def d {\n k = h\n}\n}\n}",
 	"def t \"n\" {\n def t \"n\" {\n f = K\n}\n}",
 	"def t {\n var f = K\n g = f\n def c {\n var g = K\n h = g\n}\n}",
+	"def t {\n c = K\n def c {\n x = K\n}\n}",
 }
 
 // C03_Blocks: one to three (four thorough) toplevel blocks chosen from twelve
@@ -56,6 +57,10 @@ func C03_Curated() {
 		"def a { def b { def c { def d { f = 1001 } g = 1002 } } h = 1003 }\n",
 		"def a \"x\\ty\" { f = 1001 }\n",
 		"var s = \"t\"\ndef a { f = s + 1001\n g = s * 2\n h = not s\n k = nil\n l = 1.5\n m = true }\n",
+		"def head { h = 1001 }\ndef srv \"s1\" { p = 1002 }\ndef mid { }\ndef srv \"s2\" { p = 1003 }\nbind srv:all -> slice\n",
+		"def head { h = 1001 }\ndef srv \"s1\" { p = 1002 }\ndef mid { }\nbind srv -> struct\ndef tail { }\n",
+		"def a { b = 1001\n def b { x = 1002 } }\n",
+		"def a { def b { x = 1002 }\n def c { b = 1001 } }\n",
 	}
 	src := progs[verif.Choice("prog", len(progs))]
 	values := map[string]any{}
